@@ -519,7 +519,11 @@ func genCountHeavy(w *vh.W) *jcase {
 				count(i)
 			}
 		case x < 36:
-			c.Ops = append(c.Ops, op{Op: "stream", I: i, Seed: r.Uint64() >> uint(r.IntN(60)), N: 1 + r.IntN(8)})
+			if c.Raw { // the splitmix stream feeds raw hash values: only with the hash hook installed
+				c.Ops = append(c.Ops, op{Op: "stream", I: i, Seed: r.Uint64() >> uint(r.IntN(60)), N: 1 + r.IntN(8)})
+			} else {
+				add(i, 1+r.IntN(8))
+			}
 			count(i)
 		case x < 62:
 			if r.IntN(2) == 0 {
